@@ -131,7 +131,7 @@ def strip_ranges(t):
     return t
 
 
-def compare(spec, got, exprs, alone, path="parts"):
+def compare(spec, got, exprs, alone, path="parts", src=b""):
     """spec: spec parts (expr text); got: rust parts (expr trees); exprs: iterator over (offset, text) in source order;
     alone: text -> standalone tree.  Returns (sig, detail) or None."""
     if got is None:
@@ -155,13 +155,17 @@ def compare(spec, got, exprs, alone, path="parts"):
         if strip_ranges(want) != strip_ranges(g[1]):
             return ("expr.tree@%s" % path, {"expr": text, "expected": json.dumps(strip_ranges(want))[:200], "observed": json.dumps(strip_ranges(g[1]))[:200]})
         if want != g[1]:
-            return ("expr.range@%s" % path, {"expr": text, "offset": off, "expected_range": want.get("range"), "observed_range": g[1].get("range")})
+            # known finding F-C07-1: the lexer hands the string parser the literal with CR LF already turned into LF, so
+            # every position after a CR LF inside the literal lags by one byte per CR LF
+            n = src[:off].count(b"\r\n")
+            tag = "#crlf_shift" if n > 0 and shift(want, -n) == g[1] else ""
+            return ("expr.range%s@%s" % (tag, path), {"expr": text, "offset": off, "expected_range": want.get("range"), "observed_range": g[1].get("range")})
         if s[2] != g[2]:
             return ("conversion@%s" % path, {"expr": text, "expected": s[2], "observed": g[2]})
         if (s[3] is None) != (g[3] is None):
             return ("spec_presence@%s" % path, {"expr": text, "expected": s[3], "observed": str(g[3])[:100]})
         if s[3] is not None:
-            r = compare(s[3], g[3], exprs, alone, "spec")
+            r = compare(s[3], g[3], exprs, alone, "spec", src)
             if r:
                 return r
     return None
@@ -225,7 +229,7 @@ def run_cfg(ctx, cfg, label, limit):
         for text in spec_exprs(sp):
             order.append(text)
         it = iter(exprs)
-        r = compare(sp, rust_parts(node), it, alone)
+        r = compare(sp, rust_parts(node), it, alone, src=src.encode("utf-8"))
         if r:
             ctx.mismatch("fstr.%s" % r[0], {"src": src, "detail": r[1]}, base)
     ctx.distinct_cases.update(src for (c, src, e, sp) in todo)
@@ -262,7 +266,7 @@ def replay(ctx, rec):
     if "ok" not in resp:
         ctx.mismatch("fstr.rejected:replay", {"observed": str(resp)[:200]}, c)
     else:
-        r = compare(sp, rust_parts(resp["ok"]["body"][0]["value"]), iter(exprs), alone)
+        r = compare(sp, rust_parts(resp["ok"]["body"][0]["value"]), iter(exprs), alone, src=src.encode("utf-8"))
         if r:
             ctx.mismatch("fstr.%s" % r[0], {"detail": r[1]}, c)
     ctx.sample({"fam": "fstr"})
